@@ -84,69 +84,24 @@ MCSpec == MCInit /\ [][Next]_vars /\ WF_vars(Next)
 
 DetRun == DetRunOn(input)
 
-(* ------------------------- C10: the oracle ----------------------------- *)
-AllDefs == UNION {{<<mi, di>> : di \in DOMAIN input.mods[mi].defs} : mi \in DOMAIN input.mods}
-PathOfDef(x) == Join(input.mods[x[1]].path, input.mods[x[1]].defs[x[2]].name)
-
-RECURSIVE TyNames(_)
-TyNames(ty) == CASE ty.k = "nm" -> {ty.n}
-                 [] ty.k \in {"unk", "none"} -> {}
-                 [] OTHER -> TyNames(ty.t)
-
-RECURSIVE ByValueNames(_)
-ByValueNames(ty) == CASE ty.k = "nm" -> {ty.n}
-                      [] ty.k = "arr" -> ByValueNames(ty.t)
-                      [] OTHER -> {}
-
-(* names a definition mentions in fields (or as enum base)                 *)
-FieldTypes(d) == IF d.k = "enum" THEN {d.base} ELSE {d.fields[i].ty : i \in DOMAIN d.fields}
-FnTypes(m, d) ==
-  LET fs == ImplFuncs(m, d.name) \o (IF d.k = "type" THEN d.vft.funcs ELSE <<>>)
-  IN UNION {{fs[i].args[j].ty : j \in {k \in DOMAIN fs[i].args : fs[i].args[k].k = "named"}} \cup
-            (IF fs[i].ret = TNone THEN {} ELSE {fs[i].ret}) : i \in DOMAIN fs}
-
-Bound(m, ty) == \A n \in TyNames(ty) : Bind(input, m, n) # <<>>
-
-(* least fix-point: a definition is resolvable when the names in its       *)
-(* fields exist and everything it embeds by value is resolvable            *)
-ResolvableStep(S) ==
-  S \cup {x \in AllDefs :
-            LET m == input.mods[x[1]]
-                d == m.defs[x[2]]
-            IN /\ \A ty \in FieldTypes(d) : Bound(m, ty)
-               /\ \A ty \in FieldTypes(d) : \A n \in ByValueNames(ty) :
-                     LET b == Bind(input, m, n)
-                     IN DefAt(input, b) = <<0, 0>> \/ DefAt(input, b) \in S}
-RECURSIVE Lfp(_, _)
-Lfp(S, fuel) == IF fuel = 0 \/ ResolvableStep(S) = S THEN S ELSE Lfp(ResolvableStep(S), fuel - 1)
-ResolvableDefs == Lfp({}, N + 2)
-UnresolvablePaths == {PathOfDef(x) : x \in AllDefs \ ResolvableDefs}
-
-FnNamesDefined ==
-  \A x \in AllDefs : \A ty \in FnTypes(input.mods[x[1]], input.mods[x[1]].defs[x[2]]) :
-     Bound(input.mods[x[1]], ty)
-
-Resolvable == AllDefs = ResolvableDefs /\ FnNamesDefined
-
-(* --------------------------- known findings ---------------------------- *)
-(* the generated <T>Vftable names exist only once T's attempt has reached  *)
-(* the vftable step, so an input that mentions one is schedule dependent   *)
-GeneratedNames ==
-  UNION {{input.mods[mi].defs[i].name \o "Vftable" :
-            i \in {j \in TypeDefsOf(input.mods[mi]) : input.mods[mi].defs[j].vft.has}}
-         : mi \in DOMAIN input.mods}
-MentionsGenerated ==
-  \E x \in AllDefs :
-     LET m == input.mods[x[1]]
-         d == m.defs[x[2]]
-     IN \E ty \in FieldTypes(d) \cup FnTypes(m, d) : TyNames(ty) \cap GeneratedNames # {}
+(* ------------------------- C10: the oracle (Props.tla) ------------------ *)
+AllDefs == AllDefsOf(input)
+PathOfDef(x) == PathOfDefIn(input, x)
+UnresolvablePaths == UnresolvablePathsOf(input)
+FnNamesDefined == FnNamesDefinedIn(input)
+Resolvable == ResolvableIn(input)
+MentionsGenerated == MentionsGeneratedIn(input)
 
 (* ------------------------------ invariants ----------------------------- *)
 Inv_C09 == Terminal => (Accepted = DetRun.ok /\ (Accepted => out = DetRun.out))
 
+NameErrors == {"nonterm", "unresolved-param", "unresolved-return", "unresolved-extern-value"}
+
 Inv_C10 ==
   Terminal =>
-    /\ Accepted <=> Resolvable
+    (* a build may also be rejected for its layout; C10 speaks about names and by-value cycles *)
+    /\ Accepted => Resolvable
+    /\ (Rejected /\ err \in NameErrors) => ~Resolvable
     /\ Accepted => \A x \in AllDefs : IsResolved(reg, PathOfDef(x))
     /\ (Rejected /\ err = "nonterm") => Unresolved(reg) = UnresolvablePaths
 
